@@ -1,6 +1,7 @@
 package lexer
 
 import (
+	"errors"
 	"fmt"
 	"log"
 	"strings"
@@ -62,8 +63,11 @@ func whiteSpace(c rune) str {
 }
 
 func comment(c rune) str {
-	if c == '\n' {
+	switch c {
+	case '\n':
 		return str{next: eol, doEmit: false, doAdv: true, typ: token.Invalid}
+	case EOF:
+		return str{next: eof, doEmit: false, doAdv: true, typ: token.Invalid}
 	}
 	return str{next: comment}
 }
@@ -101,8 +105,13 @@ func varName(c rune) str {
 	}
 }
 
+var errUnterminatedString = errors.New("Lexer: unterminated string literal")
+
 func stringLit(c rune) str {
 	switch {
+	case c == EOF:
+		return str{err: errUnterminatedString}
+
 	case c == '"':
 		return str{next: stringLitEnd}
 
@@ -114,7 +123,10 @@ func stringLit(c rune) str {
 	}
 }
 
-func escapeStringLit(_ rune) str {
+func escapeStringLit(c rune) str {
+	if c == EOF {
+		return str{err: errUnterminatedString}
+	}
 	return str{next: stringLit}
 }
 
